@@ -84,6 +84,8 @@ type Canon struct {
 	Renamed    []string                   // human-readable log of non-identity matches
 	// inBase: the function corresponds to a baseline declaration (same name, or matched)
 	inBase map[*types.Func]bool
+	// typeInBase: the named type corresponds to a baseline declaration
+	typeInBase map[*types.TypeName]bool
 }
 
 func exported(name string) bool { return name != "" && name[0] >= 'A' && name[0] <= 'Z' }
@@ -410,8 +412,10 @@ func (p *Program) buildCanon() (*Canon, error) {
 			c.Renamed = append(c.Renamed, fmt.Sprintf("type %s.%s is baseline %s", tn.Pkg().Name(), tn.Name(), cands[0].Name))
 		}
 	}
+	c.typeInBase = map[*types.TypeName]bool{}
 	for _, tn := range tns {
 		c.typeByName[tn.Pkg().Path()+"."+c.typeName[tn]] = tn
+		c.typeInBase[tn] = baseTypes[tn.Pkg().Path()+"."+c.typeName[tn]] != nil
 	}
 	// ---- fields
 	for _, tn := range tns {
@@ -454,6 +458,23 @@ func (p *Program) buildCanon() (*Canon, error) {
 					used[j] = true
 					c.fieldName[f] = bf.Name
 					c.Renamed = append(c.Renamed, fmt.Sprintf("field %s.%s is baseline %s", tn.Name(), f.Name(), bf.Name))
+					break
+				}
+			}
+		}
+		// renamed AND retyped with a named type the baseline does not have (`ReqID string` became
+		// `ConnID routerConnID`): compared with such types replaced by what they stand for
+		for i := 0; i < st.NumFields(); i++ {
+			f := st.Field(i)
+			if baseHas[f.Name()] || apiField(f.Name()) || c.fieldName[f] != f.Name() {
+				continue
+			}
+			ft := c.expandNewTypes(f.Type(), 0)
+			for j, bf := range missing {
+				if !used[j] && bf.Type == ft {
+					used[j] = true
+					c.fieldName[f] = bf.Name
+					c.Renamed = append(c.Renamed, fmt.Sprintf("field %s.%s (%s) is baseline %s", tn.Name(), f.Name(), c.tstr(f.Type()), bf.Name))
 					break
 				}
 			}
@@ -626,4 +647,217 @@ func (p *Program) installCanon() {
 		}
 		return o.Name()
 	}
+	p.installOwner()
+}
+
+// installOwner: a named type that a later edit introduced to hold what used to be a bare
+// field (`deleted map[K]V` became `deleted tombstones`, with the methods that only touched the
+// map moved onto it) is, inside its own methods, the field it lives in: the receiver of such
+// a method is rendered `recv.<field>` (an.RecvOwnerHook), so that what the method reads and
+// writes is named as it was when the code stood in the owner's method. Conditions: the type
+// is unexported and not in the baseline; exactly one struct field of the module has that type
+// (or a pointer to it); no function parameter other than the receivers of its own methods,
+// no result and no package variable has it.
+func (p *Program) installOwner() {
+	c := p.Canon
+	if c == nil || c.typeInBase == nil {
+		return
+	}
+	type owner struct {
+		field string
+		n     int
+	}
+	owners := map[*types.TypeName]*owner{}
+	typeNameOf := func(t types.Type) *types.TypeName {
+		if pt, ok := t.(*types.Pointer); ok {
+			t = pt.Elem()
+		}
+		n, ok := t.(*types.Named)
+		if !ok {
+			return nil
+		}
+		if o := n.Origin(); o != nil {
+			n = o
+		}
+		return n.Obj()
+	}
+	isNew := func(tn *types.TypeName) bool {
+		inBase, known := c.typeInBase[tn]
+		return known && !inBase && !exported(tn.Name())
+	}
+	for tn := range c.typeInBase {
+		st, ok := tn.Type().Underlying().(*types.Struct)
+		if !ok {
+			continue
+		}
+		for i := 0; i < st.NumFields(); i++ {
+			ft := typeNameOf(st.Field(i).Type())
+			if ft == nil || !isNew(ft) {
+				continue
+			}
+			o := owners[ft]
+			if o == nil {
+				o = &owner{}
+				owners[ft] = o
+			}
+			o.n++
+			o.field = an.FieldNameHook(st, i)
+		}
+	}
+	// no other way for a value of the type to travel
+	for _, fn := range p.ModFuncs {
+		sig := fn.Signature
+		recvT := (*types.TypeName)(nil)
+		if sig.Recv() != nil {
+			recvT = typeNameOf(sig.Recv().Type())
+		}
+		for i := 0; i < sig.Params().Len(); i++ {
+			if t := typeNameOf(sig.Params().At(i).Type()); t != nil && owners[t] != nil && t != recvT {
+				owners[t].n += 100
+			}
+		}
+		for i := 0; i < sig.Results().Len(); i++ {
+			if t := typeNameOf(sig.Results().At(i).Type()); t != nil && owners[t] != nil {
+				// a constructor returning the value that is stored into the field is fine
+				if fn.Signature.Recv() != nil || !strings.HasPrefix(strings.ToLower(fn.Name()), "new") {
+					owners[t].n += 100
+				}
+			}
+		}
+	}
+	for _, pkg := range []*ssa.Package{p.Root, p.Sqlite, p.Prom} {
+		if pkg == nil {
+			continue
+		}
+		for _, m := range pkg.Members {
+			if g, ok := m.(*ssa.Global); ok {
+				if t := typeNameOf(g.Type().(*types.Pointer).Elem()); t != nil && owners[t] != nil {
+					owners[t].n += 100
+				}
+			}
+		}
+	}
+	p.installWriteOnce()
+	an.RecvOwnerHook = func(fn *ssa.Function) string {
+		if fn.Signature.Recv() == nil {
+			return ""
+		}
+		t := typeNameOf(fn.Signature.Recv().Type())
+		if t == nil {
+			return ""
+		}
+		if o := owners[t]; o != nil && o.n == 1 {
+			return "recv." + o.field
+		}
+		return ""
+	}
+}
+
+// installWriteOnce: which struct fields of the module are assigned only while the object is
+// being built — in the function that allocates it, or in the function that has just received
+// it from a module constructor (once, outside loops) — and never have their address handed
+// on. For those, reading the field of an object whose construction is in view yields what the
+// construction put there (an.FieldWriteOnceHook).
+func (p *Program) installWriteOnce() {
+	dirty := map[*types.Var]bool{}
+	nStores := map[*types.Var]int{}
+	oneStore := map[*types.Var]*ssa.Store{}
+	fieldVar := func(fa *ssa.FieldAddr) *types.Var {
+		t := fa.X.Type()
+		if pt, ok := t.Underlying().(*types.Pointer); ok {
+			t = pt.Elem()
+		}
+		st, ok := t.Underlying().(*types.Struct)
+		if !ok || fa.Field >= st.NumFields() {
+			return nil
+		}
+		return st.Field(fa.Field)
+	}
+	for _, fn := range p.ModFuncs {
+		an.Instrs(fn, func(in ssa.Instruction) {
+			fa, ok := in.(*ssa.FieldAddr)
+			if !ok || fa.Referrers() == nil {
+				return
+			}
+			fv := fieldVar(fa)
+			if fv == nil {
+				return
+			}
+			for _, r := range *fa.Referrers() {
+				switch x := r.(type) {
+				case *ssa.Store:
+					if x.Addr != ssa.Value(fa) {
+						dirty[fv] = true // the field's address is stored somewhere
+						nStores[fv] += 2
+						continue
+					}
+					nStores[fv]++
+					oneStore[fv] = x
+					building := false
+					switch b := fa.X.(type) {
+					case *ssa.Alloc:
+						building = true
+					case *ssa.Call:
+						if g := an.StaticCallee(&b.Call); g != nil && p.InModule(g) && an.LoopHeaderOf(x.Block()) == nil {
+							building = true
+						}
+					}
+					if !building {
+						dirty[fv] = true
+					}
+				case *ssa.UnOp, *ssa.DebugRef, *ssa.FieldAddr, *ssa.IndexAddr:
+					// loads and deeper addresses: a deeper store shows up at its own FieldAddr; an
+					// element store into an array/slice field does not change the field's value
+				default:
+					dirty[fv] = true // address handed to a call, stored, sent …
+					nStores[fv] += 2
+				}
+			}
+		})
+	}
+	an.FieldSingleStoreHook = func(t types.Type, i int) *ssa.Store {
+		if pt, ok := t.Underlying().(*types.Pointer); ok {
+			t = pt.Elem()
+		}
+		st, ok := t.Underlying().(*types.Struct)
+		if !ok || i >= st.NumFields() || nStores[st.Field(i)] != 1 {
+			return nil
+		}
+		return oneStore[st.Field(i)]
+	}
+	an.FieldWriteOnceHook = func(t types.Type, i int) bool {
+		if pt, ok := t.Underlying().(*types.Pointer); ok {
+			t = pt.Elem()
+		}
+		st, ok := t.Underlying().(*types.Struct)
+		if !ok || i >= st.NumFields() {
+			return false
+		}
+		return !dirty[st.Field(i)]
+	}
+}
+
+// expandNewTypes renders t like tstr, but with named types of the module that the baseline
+// does not know replaced by their underlying types.
+func (c *Canon) expandNewTypes(t types.Type, depth int) string {
+	if depth > 6 {
+		return c.tstr(t)
+	}
+	switch x := t.(type) {
+	case *types.Named:
+		if inBase, known := c.typeInBase[x.Obj()]; known && !inBase {
+			return c.expandNewTypes(x.Underlying(), depth+1)
+		}
+	case *types.Pointer:
+		return "*" + c.expandNewTypes(x.Elem(), depth+1)
+	case *types.Slice:
+		return "[]" + c.expandNewTypes(x.Elem(), depth+1)
+	case *types.Map:
+		return "map[" + c.expandNewTypes(x.Key(), depth+1) + "]" + c.expandNewTypes(x.Elem(), depth+1)
+	case *types.Chan:
+		if x.Dir() == types.SendRecv {
+			return "chan " + c.expandNewTypes(x.Elem(), depth+1)
+		}
+	}
+	return c.tstr(t)
 }
